@@ -274,7 +274,7 @@ def run(ctx):
     from ..core import Ctx as _Ctx
     from . import C16, C15
     sub = shared_run(ctx, C16, prop="C16")
-    for e in sub.errors:
+    for e in relevant_errors(sub, ("C16.R1",)):
         ctx.error("shared C16 rules: " + e)
     for o in sub.obligations:
         if o.rule == "C16.R1":
